@@ -31,7 +31,7 @@ ALL_SIZED = BASE + CONV + BORROW + UNIQ + COW + UNWRAP
 def walks(prop, tier, seed, ops=None, hows=("new", "newB", "unique")):
     """random walks (tlc -simulate) through the sized-family specification with more slots, blocks and
     frame depth than the exhaustive configurations reach"""
-    n, d = (400, 40) if tier == "quick" else (20000, 80)
+    n, d = (400, 40) if tier == "quick" else (5000, 80)
     return sized(prop, tier, "sized_walks_" + tier[0], ops or ALL_SIZED, 6, 4, 2, hows=hows, simulate=(n, d, seed))
 
 
@@ -169,7 +169,7 @@ def c15(tier, seed):
                 stage(CT.ctor_stage, "C15", tier, "ctor_uninit_q", ["fhi", "thin", "collect"], True, only_cats=["contents", "baddrop", "drops", "overrun", "crash"]),
                 thin("C15", tier, "thin_reclen_q", ["NewFat", "NewThin", "Clone", "Drop", "IntoThin", "FromThin", "ProtFromThin", "ProtIntoThin"], 3, 2, 1, 2)] + swaps("C15", tier, seed, hows=("uninit",))
     return [uninit("C15", tier, "uninit_t", 3, 2, 3), uninit("C15", tier, "uninit_t4", 4, 2, 2),
-            uninit("C15", tier, "uninit_walks_t", 5, 4, 5, simulate=(10000, 60, seed)),
+            uninit("C15", tier, "uninit_walks_t", 5, 4, 5, simulate=(5000, 60, seed)),
             uninit("C15", tier, "uninit_long_t", 3, 2, 2, scale=9), uninit("C15", tier, "uninit_long17_t", 2, 2, 3, scale=17),
             uninit("C15", tier, "uninit_long64_t", 2, 1, 2, scale=64),
             mm("C15", tier, "mm_deprecated_write_t", [("c15_2x4", ["clone", "read", "drop", "get_mut"], 2, 4, 2, False), ("c15_3x2", ["clone", "read", "drop", "get_mut"], 3, 2, 1, False)]),
@@ -195,7 +195,7 @@ def c07(tier, seed):
     return [stage(CT.ctor_stage, "C07", tier, "ctor_faults_" + tier[0], ["fhi", "thin", "collect", "vec", "observe", "release"], True),
             sized("C07", tier, "sized_panics_" + tier[0], frames, n, 2, 2 if tier == "thorough" else 1, hows=("new", "newB")),
             thin("C07", tier, "thin_panics_" + tier[0], THIN_OPS, n, 2, 1, 1), nested_frames("C07", tier),
-            thin("C07", tier, "thin_walks_" + tier[0], THIN_OPS, 6, 4, 2, 3, simulate=((1000, 40, seed) if tier == "quick" else (20000, 80, seed)))]
+            thin("C07", tier, "thin_walks_" + tier[0], THIN_OPS, 6, 4, 2, 3, simulate=((1000, 40, seed) if tier == "quick" else (5000, 80, seed)))]
 
 
 def c17(tier, seed):
@@ -235,7 +235,7 @@ def swaps(prop, tier, seed, hows=("init", "uninit", "thin")):
         for h in hows:
             out.append(swap(prop, tier, "swap_%s_%s" % (h, t), 4, 2, 1, hows=(h,)))
         out.append(swap(prop, tier, "swap_mixed_" + t, 3, 2, 2, hows=hows))
-        out.append(swap(prop, tier, "swap_walks_" + t, 8, 5, 3, hows=hows, simulate=(5000, 60, seed + 7)))
+        out.append(swap(prop, tier, "swap_walks_" + t, 8, 5, 3, hows=hows, simulate=(2500, 60, seed + 7)))
     return out
 
 
@@ -262,7 +262,7 @@ def c10(tier, seed):
                   only_cats=["thin", "contents", "overrun", "layout", "baddrop", "crash", "count"])] + swaps("C10", tier, seed, hows=("thin",))
     return [thin("C10", tier, "thin_t", THIN_OPS, 4, 2, 2, 2), thin_lengths("C10", tier),
             thin("C10", tier, "thin_nostd_t", THIN_OPS, 3, 2, 2, 2, harness_cfg="b"), thin("C10", tier, "thin_debug_t", THIN_OPS, 3, 2, 2, 2, harness_cfg="d"),
-            thin("C10", tier, "thin_walks_t", THIN_OPS, 6, 4, 2, 3, simulate=(20000, 80, seed)),
+            thin("C10", tier, "thin_walks_t", THIN_OPS, 6, 4, 2, 3, simulate=(5000, 80, seed)),
             lay("C10", tier, "layout_matrix_t"), inj("C10", tier),
             # "every ThinArc obtainable through the safe API": also from iterators that misreport or change their length
             stage(CT.ctor_stage, "C10", tier, "ctor_thin_" + tier[0], ["thin"], True,
@@ -291,7 +291,7 @@ def c01(tier, seed):
             sized("C01", tier, "sized_life_t5", BASE + CONV_CORE + ["Enter", "Exit"], 5, 2, 1, hows=("new", "newB")),
             walks("C01", tier, seed),
             thin("C01", tier, "thin_life_t", THIN_OPS, 4, 2, 2, 2),
-            slices("C01", tier, "slices_life_t", 4, 2, 2), slices("C01", tier, "slices_walks_t", 6, 4, 3, simulate=(5000, 60, seed)),
+            slices("C01", tier, "slices_life_t", 4, 2, 2), slices("C01", tier, "slices_walks_t", 6, 4, 3, simulate=(4000, 60, seed)),
             sized("C01", tier, "sized_life_nostd_t", BASE + CONV + BORROW + UNIQ + COW + UNWRAP, 3, 2, 1, harness_cfg="b"),
             sized("C01", tier, "sized_life_debug_t", BASE + CONV + BORROW + UNIQ + COW + UNWRAP, 3, 2, 1, harness_cfg="d"),
             thin("C01", tier, "thin_life_debug_t", THIN_OPS, 4, 2, 1, 2, harness_cfg="d"),
